@@ -42,7 +42,7 @@ def _z3_check_text(text, timeout_ms=None):
     return str(r), dt, model, (s.reason_unknown() if r == z3.unknown else '')
 
 
-def _cvc5_check_text(text, strings=False):
+def _cvc5_check_text(text, strings=False, tlimit_ms=None):
     try:
         import cvc5
     except Exception as e:  # pragma: no cover
@@ -50,7 +50,7 @@ def _cvc5_check_text(text, strings=False):
     t0 = time.time()
     try:
         slv = cvc5.Solver()
-        slv.setOption('tlimit-per', str(CVC5_TIMEOUT_MS * (4 if strings else 1)))
+        slv.setOption('tlimit-per', str(tlimit_ms or CVC5_TIMEOUT_MS * (4 if strings else 1)))
         slv.setOption('produce-models', 'true')
         if strings:
             slv.setOption('strings-exp', 'true')
@@ -107,9 +107,25 @@ def _finite_scope(text):
     return None
 
 
+GUARD_MS = int(os.environ.get('VERIF_GUARD_MS', '2500'))
+
+
+def _guard(job):
+    """vacuity guard: `False` must NOT be provable from the hypotheses of a contract path (short budget; anything
+    but `unsat` is fine: the hypotheses are then not known to be contradictory)"""
+    name, text, strings = job[:3]
+    if strings:
+        r, dt, _, why = _cvc5_check_text(text, True, tlimit_ms=GUARD_MS * 2)
+    else:
+        r, dt, _, why = _z3_check_text(text, GUARD_MS)
+    return name, ('proved' if r == 'unsat' else 'not-contradictory'), 'guard', dt, None, why
+
+
 def _work(job):
     """z3 (short budget) -> finite-scope model search -> cvc5 -> z3 (long budget)."""
-    name, text, strings = job
+    if len(job) > 3 and job[3] == 'guard':
+        return _guard(job)
+    name, text, strings = job[:3]
     total = 0.0
     why_all = []
     if strings:
